@@ -991,6 +991,16 @@ def _exponent_tolerance(b, want, fs):
     of the order of dz tan(theta) at the highest point.  Three times those lengths (measured:
     at most 0.45 times) over the shortest attenuation length on the path is allowed."""
     slack = np.zeros(len(want))
+    if b.kind == "specialized":
+        # below z_uniform the analytic path is the straight line of index n0 while its attenuation
+        # integrand uses sec(arcsin(beta / n(z))) with the true n(z) (documented uniformity_factor
+        # = 0.99999): d sec / sec = tan^2(theta) dn/n, which matters for nearly horizontal rays
+        spec = b.spec
+        z_u = R.z_uniform_of(spec)
+        beta = _beta(b)
+        if min(b.f[2], b.t[2]) < z_u and 0 < beta < spec["n0"]:
+            tan2 = beta * beta / (spec["n0"] ** 2 - beta * beta)
+            return min(0.5, 0.01 + 1.5e-5 * tan2), slack
     if b.kind != "basic":
         return 0.01, slack
     spec = b.spec
